@@ -601,6 +601,15 @@ func encodeLossy(img image.Image, opts *EncoderOptions) ([]byte, uint32, error) 
 	return bs, fourcc, err
 }
 
+// unpremultiply8 converts one alpha-premultiplied 8-bit channel to its
+// non-premultiplied value exactly as color.NRGBAModel does (16-bit arithmetic:
+// (c*0x101*0xffff / (a*0x101)) >> 8), so that the *image.RGBA fast paths agree
+// with the generic path. a must be in 1..254. The product fits in uint32
+// (255*0x101*0xffff < 2^32).
+func unpremultiply8(c, a uint8) uint8 {
+	return uint8((uint32(c) * 0x101 * 0xffff / (uint32(a) * 0x101)) >> 8)
+}
+
 // validNRGBA reports whether the NRGBA image's Stride and Pix buffer are
 // consistent with the given width and height. This prevents out-of-bounds
 // reads when accessing raw pixel data in fast-path encoders.
@@ -652,10 +661,9 @@ func encodeLossless(img image.Image, opts *EncoderOptions) ([]byte, uint32, erro
 				r, g, b := rgba.Pix[off], rgba.Pix[off+1], rgba.Pix[off+2]
 				// Un-premultiply for lossless encoding (VP8L stores NRGBA).
 				if a > 0 && a < 255 {
-					a16 := uint16(a)
-					r = uint8(uint16(r) * 255 / a16)
-					g = uint8(uint16(g) * 255 / a16)
-					b = uint8(uint16(b) * 255 / a16)
+					r = unpremultiply8(r, a)
+					g = unpremultiply8(g, a)
+					b = unpremultiply8(b, a)
 				}
 				argb[y*width+x] = uint32(a)<<24 | uint32(r)<<16 | uint32(g)<<8 | uint32(b)
 			}
@@ -718,10 +726,9 @@ func encodeLosslessToWriter(w io.Writer, img image.Image, opts *EncoderOptions) 
 				a := rgba.Pix[off+3]
 				r, g, b := rgba.Pix[off], rgba.Pix[off+1], rgba.Pix[off+2]
 				if a > 0 && a < 255 {
-					a16 := uint16(a)
-					r = uint8(uint16(r) * 255 / a16)
-					g = uint8(uint16(g) * 255 / a16)
-					b = uint8(uint16(b) * 255 / a16)
+					r = unpremultiply8(r, a)
+					g = unpremultiply8(g, a)
+					b = unpremultiply8(b, a)
 				}
 				argb[y*width+x] = uint32(a)<<24 | uint32(r)<<16 | uint32(g)<<8 | uint32(b)
 			}
@@ -817,10 +824,9 @@ func cleanupTransparentAreaLossyWith(img image.Image, hasAlpha bool) image.Image
 					nrgba.Pix[doff+2] = src.Pix[soff+2]
 					nrgba.Pix[doff+3] = 255
 				} else {
-					a16 := uint16(a)
-					nrgba.Pix[doff] = uint8(uint16(src.Pix[soff]) * 255 / a16)
-					nrgba.Pix[doff+1] = uint8(uint16(src.Pix[soff+1]) * 255 / a16)
-					nrgba.Pix[doff+2] = uint8(uint16(src.Pix[soff+2]) * 255 / a16)
+					nrgba.Pix[doff] = unpremultiply8(src.Pix[soff], a)
+					nrgba.Pix[doff+1] = unpremultiply8(src.Pix[soff+1], a)
+					nrgba.Pix[doff+2] = unpremultiply8(src.Pix[soff+2], a)
 					nrgba.Pix[doff+3] = a
 				}
 			}
